@@ -361,6 +361,40 @@ func C12(c *core.Ctx) {
 				}
 			}
 			c.Check("R1", "refcount-known-urr:"+core.FnName(fn), r.st.Pos(), known, "the count is incremented for URRs the session knows")
+			// the PDR's URR list is a set: an id named twice in one request is one list entry and may count once only.
+			// Accepted: the increment sits in a loop over the keys of a map (distinct by construction), or behind
+			// "this id is not yet in the set being built"
+			once, why := false, "the increment runs once per URR ID IE although the list it belongs to is a set: a repeated id counts twice, and the count no longer reaches zero when the PDR goes"
+			for _, lk := range guardLookups(r.st) {
+				if _, f, ok := core.LoadedField(lk.X); !ok || f != urrids {
+					continue
+				}
+				key := lk.Index
+				if cv, isConv := key.(*ssa.Convert); isConv {
+					key = cv.X
+				}
+				if ex, isEx := key.(*ssa.Extract); isEx && ex.Index == 1 {
+					if nx, isNext := ex.Tuple.(*ssa.Next); isNext && !nx.IsString {
+						if rg, isRange := nx.Iter.(*ssa.Range); isRange {
+							if _, isMap := rg.X.Type().Underlying().(*types.Map); isMap {
+								once = true
+							}
+						}
+					}
+				}
+				for _, ft := range core.FactsAt(r.st.Block()) {
+					ex, isEx := ft.V.(*ssa.Extract)
+					if !isEx || ft.True || ex.Index != 1 {
+						continue
+					}
+					if l2, isLk := ex.Tuple.(*ssa.Lookup); isLk && l2.CommaOk && l2 != lk && l2.Index == lk.Index {
+						if _, isMk := core.Unwrap(l2.X).(*ssa.MakeMap); isMk {
+							once = true
+						}
+					}
+				}
+			}
+			c.Check("R1", "refcount-once-per-id:"+core.FnName(fn), r.st.Pos(), once, "a URR id counts once per PDR however often the request names it"+map[bool]string{true: "", false: " — " + why}[once])
 			// when the PDR already had a list (update): only for ids not previously related
 			hadList := false
 			core.Instrs(fn, func(in ssa.Instruction) {
